@@ -1,6 +1,6 @@
 (* Executable entry of the schemaops model: opcode :: payload. *)
 From GV Require Import Base.Prelude SchemaOps.Schema SchemaOps.SchemaWire SchemaOps.NatOrder
-  SchemaOps.Sort SchemaOps.Diff SchemaOps.Build SchemaOps.Sdl.
+  SchemaOps.Sort SchemaOps.Diff SchemaOps.Build SchemaOps.Sdl SchemaOps.Introspect SchemaOps.IntrospectWire.
 
 Definition enc_change (c : change) : list N :=
   c_kind c :: enc_list enc_text (c_path c).
@@ -40,6 +40,21 @@ Definition run (inp : list N) : list N :=
   | 7 :: r =>
       match (s <- dec_schema ;; ds <- dec_list dec_def ;; retd (s, ds)) r with
       | Some ((s, ds), []) => 1 :: enc_schema (extend s ds)
+      | _ => [0]
+      end
+  | 8 :: r =>
+      match (o <- dec_opts ;; s <- dec_schema ;; retd (o, s)) r with
+      | Some ((o, s), []) => 1 :: enc_json (introspect leaf_text s o)
+      | _ => [0]
+      end
+  | 9 :: r =>
+      match (o <- dec_opts ;; j <- dec_json 64 ;; retd (o, j)) r with
+      | Some ((o, j), []) => 1 :: enc_json (prune o j)
+      | _ => [0]
+      end
+  | 10 :: r =>
+      match (o <- dec_opts ;; n <- dec_text ;; s <- dec_schema ;; retd (o, n, s)) r with
+      | Some ((o, n, s), []) => 1 :: enc_json (type_lookup leaf_text s o n)
       | _ => [0]
       end
   | _ => [999999]
